@@ -135,6 +135,12 @@ class POP(BaseModelSingleSet):
         )
         self.attrs.update({"model": "Principal Oscillation Pattern analysis"})
 
+        if solver not in ["auto", "full", "randomized"]:
+            raise ValueError(
+                f"Unrecognized solver '{solver}'. "
+                "Valid options are 'auto', 'full', and 'randomized'."
+            )
+
         self.pca = PCA(
             use_pca=use_pca,
             n_modes=n_pca_modes,
